@@ -371,8 +371,10 @@ class StringCodec(Codec):
             raise EncodeError("String codec only supports strings")
         if subtypes != ():
             raise EncodeError("string should have no subtypes")
-        Uint64Codec.encode(out, len(val))
-        out.write(val.encode())
+        # The length prefix counts the UTF-8 bytes that follow, not characters.
+        data = val.encode("utf-8")
+        Uint64Codec.encode(out, len(data))
+        out.write(data)
 
 
 class BoolCodec(Codec):
